@@ -113,6 +113,8 @@ def cases(draw, tier):
     else:
         case["common"] = None
     case["counts"] = draw(st.booleans())
+    # key order of the caller's counts dict: by value, most frequent first (a frequency table), first appearance, reversed
+    case["counts_order"] = draw(st.sampled_from(["value", "frequency", "appearance", "reversed"]))
     # counts for the variable's whole category list: categories that do not occur are listed with count 0
     case["counts_extra"] = draw(st.lists(st.sampled_from(outside), unique=True, max_size=2)) if (
         case["counts"] and outside and draw(st.integers(0, 2)) == 0) else []
@@ -156,6 +158,21 @@ def cases(draw, tier):
     case["back"] = draw(st.sampled_from(["default", "default", "int64", "fitted", "mapping"]))
     case["backshift"] = draw(st.integers(-5, 300))
     return case
+
+
+def ordered_counts(flat, order):
+    """The exact counts of the values of `flat` as a dict whose KEY ORDER is the caller's business."""
+    seen = {}
+    for v in flat:
+        seen[v] = seen.get(v, 0) + 1
+    keys = list(seen)  # first appearance
+    if order == "value":
+        keys = sorted(keys)
+    elif order == "reversed":
+        keys = sorted(keys, reverse=True)
+    elif order == "frequency":
+        keys = sorted(keys, key=lambda k: (-seen[k], k))
+    return {k: seen[k] for k in keys}
 
 
 def as_given(a, in_dtype, layout):
@@ -216,7 +233,7 @@ def check(case, rec):
         kwargs["common"] = case["common"]
     present = sorted(set(flat))
     if case["counts"]:
-        kwargs["counts"] = {v: flat.count(v) for v in present}
+        kwargs["counts"] = ordered_counts(flat, case.get("counts_order", "value"))
         for v in case.get("counts_extra", []):
             kwargs["counts"].setdefault(v, 0)
     m1 = None
